@@ -8,6 +8,8 @@ Inductive case18 :=
 | KCount (ops : list cop) (obs : list (bytes * tagmap * Z))          (* final value of the series of each identity *)
 | KHist (bs : list float) (vals : list float) (cnt : Z) (sum : float) (cs : list Z)
         (pcts : list (float * float))                                (* (p, observed percentile), p ascending *)
+        (exported : list (float * float))                            (* (p, value) the collector exports for a histogram fed the same observations *)
+        (exp_count exp_sum : option float)
 | KMon (ops : list mop) (totals : list (bytes * Z)) (series : list (bytes * Z)).  (* per name: sum of values; number of series *)
 
 Definition id_of (x : bytes * tagmap * N) : ident := metric_id (fst (fst x)) (snd (fst x)).
@@ -57,7 +59,7 @@ Definition check_case (c : case18) : report :=
       let bad_model := existsb (fun x => negb (Z.eqb (snd x) (cvalue (id_of (fst x, 0%N)) reg))) obs in
       {| r_verdict := if bad_pred then VPredFail "counter_exact" else if bad_model then VMismatch "counter" else VOk;
          r_trivial := match ops with [] => true | _ => false end; r_tags := ["counter"] |}
-  | KHist bs vals cnt sum cs pcts =>
+  | KHist bs vals cnt sum cs pcts exported exp_count exp_sum =>
       let h := fold_left observe vals (hist_new bs) in
       let pred :=
         if negb (Z.eqb cnt (Z.of_nat (List.length vals))) then Some "hist_count"
@@ -69,7 +71,16 @@ Definition check_case (c : case18) : report :=
           let mag := fold_left (fun a v => (a + PrimFloat.abs v)%float) vals 1%float in
           let err := PrimFloat.abs (sum - hsum h)%float in
           if PrimFloat.ltb (mag * 0x1.12e0be826d695p-30)%float err || negb (PrimFloat.eqb err err) && PrimFloat.eqb (hsum h) (hsum h)
-          then Some "hist_sum_exact" else None in
+          then Some "hist_sum_exact"
+          (* what the collector exports for the series is what the histogram itself reports *)
+          else if negb (forallb (fun e => match find (fun pv => PrimFloat.eqb (fst pv) (fst e)) pcts with
+                                          | Some pv => PrimFloat.eqb (snd pv) (snd e) | None => true end) exported)
+          then Some "exported_percentile_is_the_histograms"
+          else if match exp_count with Some x => negb (PrimFloat.eqb x (PrimFloat.of_uint63 (Uint63.of_Z cnt))) | None => false end
+          then Some "exported_count"
+          else if match exp_sum with Some x => negb (PrimFloat.eqb x sum) && PrimFloat.eqb sum sum | None => false end
+          then Some "exported_sum"
+          else None in
       let same := Z.eqb (hcount h) cnt && PrimFloat.eqb (hsum h) sum &&
                   list_eqb Z.eqb (counts h ++ [overflow h]) cs &&
                   forallb (fun pv => PrimFloat.eqb (percentile h (fst pv)) (snd pv)) pcts in
